@@ -31,6 +31,7 @@ pub const KF_GLOBAL_TUPLE: &str = "C01-wasm-global-tuple-in-stateful-fn";
 pub const KF_BLOCK_OPERAND: &str = "C01-wasm-block-operand";
 pub const KF_PROJ_COND: &str = "C01-wasm-proj-in-cond-and-arm";
 pub const KF_CAPTURE_DESTRUCTURED: &str = "C01-wasm-closure-captures-destructured";
+pub const KF_ARRAY_INF: &str = "C01-array-index-infinite";
 
 pub fn pcfg(cx: &Cx) -> (PCfg, Vec<&'static str>) {
     let mut c = PCfg::default();
@@ -82,6 +83,10 @@ pub fn pcfg(cx: &Cx) -> (PCfg, Vec<&'static str>) {
     if cx.excluded(KF_CAPTURE_DESTRUCTURED) {
         c.capture_destructured = false;
         off.push(KF_CAPTURE_DESTRUCTURED);
+    }
+    if cx.excluded(KF_ARRAY_INF) {
+        c.array_index_inf = false;
+        off.push(KF_ARRAY_INF);
     }
     if cx.excluded(KF_UNRESOLVED_SELF) {
         c.unannotated_self = false;
